@@ -189,6 +189,30 @@ CLAIMS.update({
         technique="frame conditions checked on every write site by the VC generator + syntactic frame scan; labelled bounded history sweep",
     ),
 })
+CLAIMS.update({
+    "C11": dict(
+        category="proof",
+        text=("SocketWrapper is verified against a trusted recv() contract whose nondeterminism covers every segmentation, buffer size and "
+              "placement of timeouts / OS errors: class invariant _buffer == net[delivered : received] (established by __init__, preserved "
+              "by _recv in both outcomes - a failed receive changes nothing - and by read/readline); read returns exactly the next num "
+              "bytes or b'' after a failed receive; readline the bytes through the first LF. Hence it refines the stream contract the "
+              "reader is verified against, and RTCMReader.__init__ is proved to wrap sockets."),
+        design_ref="DESIGN.md 5/C11",
+        note=BASE_TRUST + "Assumed: socket.recv contract; liveness of the peer for termination; plain mode (chunked: C12).",
+        technique="VC generation from the real AST; class invariant + loop invariants over ghost network stream; z3",
+    ),
+    "C12": dict(
+        category="proof",
+        text=("dechunk is verified over a ghost chunk partition of the encoded stream for all 8 compression-bit combinations: partial is the "
+              "undecoded tail from a chunk boundary, no complete chunk is left in it, chunks are exactly the decoded bodies before it (loop "
+              "invariant on the BytesIO cursor); _recv in chunked mode preserves the class invariant (_buffer = decoded bytes up to the "
+              "boundary, _partial = received bytes after it). Hex-size parsing and zlib are uninterpreted; a labelled bounded sweep of all "
+              "1-/2-cut segmentations of small bodies (upper/lower-case sizes, +/- zero chunk, each compression) covers them."),
+        design_ref="DESIGN.md 5/C12",
+        note=BASE_TRUST + "int(line,16) and zlib.decompress are uninterpreted functions with the stated assumptions; receives after the zero chunk not modelled.",
+        technique="VC generation from the real AST over ghost chunk partition (byte views, no string solver) + labelled bounded segmentation sweep",
+    ),
+})
 REASONS = {}
 
 checks = []
